@@ -1794,6 +1794,12 @@ func checkOperandSelection(w *World, r *Report) {
 				in.runForms(x, lastOps, 4)
 				return false
 			}
+		case *ast.ForStmt:
+			// the same loop written with an index: for k := 0; k < len(ops); k++ { op := ops[k]; … }
+			if rs := indexLoopAsRange(pkg.TypesInfo, x); rs != nil && isT2opSlice(pkg.TypesInfo, rs.X) && len(lastOps) > 0 {
+				in.runForms(rs, lastOps, 4)
+				return false
+			}
 		}
 		return true
 	})
@@ -2203,4 +2209,46 @@ func checkStemOpEmit(w *World, r *Report) {
 	if n == 0 {
 		r.Fatal("stemopemit: no emission of a stem operator found in encodeCharString")
 	}
+}
+
+// indexLoopAsRange recognises `for k := 0; k < len(xs); k++ { v := xs[k]; body }`
+// (v optional) and returns the equivalent range statement, nil otherwise.
+func indexLoopAsRange(info *types.Info, fs *ast.ForStmt) *ast.RangeStmt {
+	init, ok := fs.Init.(*ast.AssignStmt)
+	if !ok || init.Tok != token.DEFINE || len(init.Lhs) != 1 || len(init.Rhs) != 1 {
+		return nil
+	}
+	k, ok := init.Lhs[0].(*ast.Ident)
+	if !ok {
+		return nil
+	}
+	if c, isC := constInt(info, init.Rhs[0]); !isC || c != 0 {
+		return nil
+	}
+	post, ok := fs.Post.(*ast.IncDecStmt)
+	if !ok || post.Tok != token.INC || types.ExprString(post.X) != k.Name {
+		return nil
+	}
+	cond, ok := fs.Cond.(*ast.BinaryExpr)
+	if !ok || cond.Op != token.LSS || types.ExprString(cond.X) != k.Name {
+		return nil
+	}
+	call, ok := cond.Y.(*ast.CallExpr)
+	if !ok || len(call.Args) != 1 {
+		return nil
+	}
+	if id, ok := call.Fun.(*ast.Ident); !ok || id.Name != "len" {
+		return nil
+	}
+	xs := call.Args[0]
+	rs := &ast.RangeStmt{For: fs.For, Key: k, Tok: token.DEFINE, X: xs, Body: fs.Body}
+	if len(fs.Body.List) > 0 {
+		if as, ok := fs.Body.List[0].(*ast.AssignStmt); ok && as.Tok == token.DEFINE && len(as.Lhs) == 1 && len(as.Rhs) == 1 {
+			if ix, ok := as.Rhs[0].(*ast.IndexExpr); ok && types.ExprString(ix.X) == types.ExprString(xs) && types.ExprString(ix.Index) == k.Name {
+				rs.Value = as.Lhs[0]
+				rs.Body = &ast.BlockStmt{Lbrace: fs.Body.Lbrace, List: fs.Body.List[1:], Rbrace: fs.Body.Rbrace}
+			}
+		}
+	}
+	return rs
 }
